@@ -33,6 +33,7 @@ RUNS = {
     "C16": {"quick": 480, "thorough": 30000},
     "C17": {"quick": 480, "thorough": 30000},
     "C19": {"quick": 480, "thorough": 30000},
+    "C18": {"quick": 464, "thorough": 9280},
     "C05": {"quick": 480, "thorough": 30000},
     "C06": {"quick": 480, "thorough": 30000},
     "C07": {"quick": 480, "thorough": 30000},
